@@ -144,6 +144,7 @@ func c10Filled(n int) []byte {
 // Returns the concatenated dst[:n] of every call, and flags.
 func c10RunCalls(cf *CFB8.CFB8, calls []c10Call, msg []byte) (out []byte, tailmod, srcmod bool) {
 	off := 0
+	scratch := map[int][]byte{} // "scratch<L>": one L-byte destination per history, reused by every such call
 	for _, cl := range calls {
 		n := cl.n
 		if off+n > len(msg) {
@@ -174,7 +175,19 @@ func c10RunCalls(cf *CFB8.CFB8, calls []c10Call, msg []byte) (out []byte, tailmo
 			src, dst = arr[:n:n], arr[n:]
 			copy(src, orig)
 		default:
-			panic("unknown mode " + cl.mode)
+			// "scratch<L>": a separate destination of L bytes whatever len(src) is (a reused scratch buffer)
+			if L, ok := c10ScratchLen(cl.mode); ok {
+				src = append(make([]byte, 0, n), orig...)
+				if scratch[L] == nil {
+					scratch[L] = make([]byte, L)
+				}
+				dst = scratch[L]
+				for i := range dst {
+					dst[i] = c10Filler
+				}
+			} else {
+				panic("unknown mode " + cl.mode)
+			}
 		}
 		cf.XORKeyStream(dst, src)
 		if cl.mode != "inplace" && !bytes.Equal(src, orig) {
@@ -596,9 +609,26 @@ func c10Len(c *Ctx, bs int, large bool) int {
 
 var c10Modes = []string{"inplace", "disjoint", "dstlonger", "below", "above"}
 
-func c10Mode(c *Ctx) string {
-	if c.R.Intn(3) == 0 {
+func c10ScratchLen(mode string) (int, bool) {
+	if !strings.HasPrefix(mode, "scratch") {
+		return 0, false
+	}
+	L, err := strconv.Atoi(mode[len("scratch"):])
+	return L, err == nil && L >= 0
+}
+
+// c10Mode picks the aliasing mode of a call of n source bytes. The destination length is chosen
+// independently of n in the "scratch<L>" modes (never shorter than n).
+func c10Mode(c *Ctx, bs, n int) string {
+	switch c.R.Intn(6) {
+	case 0, 1:
 		return "inplace"
+	case 2:
+		L := []int{2*bs + 1, 3 * bs, 128, 4*bs + 7, 1024}[c.R.Intn(5)]
+		if L < n {
+			L = n + 2*bs + 1
+		}
+		return "scratch" + strconv.Itoa(L)
 	}
 	return c10Modes[1+c.R.Intn(4)]
 }
@@ -616,7 +646,7 @@ func c10Calls(c *Ctx, bs int, maxTotal int) ([]c10Call, int) {
 		if total+n > maxTotal {
 			n = maxTotal - total
 		}
-		calls = append(calls, c10Call{c10Mode(c), n})
+		calls = append(calls, c10Call{c10Mode(c, bs, n), n})
 		total += n
 	}
 	return calls, total
@@ -677,6 +707,28 @@ func genC10(c *Ctx) {
 						}
 						calls := []c10Call{{"inplace", k}, {m, n}, {"inplace", bs + 3}}
 						c10Cfb8(c, cn, key, iv, de, calls, c10Bytes(c.R, k+n+bs+3))
+					}
+				}
+			}
+		}
+	}
+	// a separate destination whose length is independent of the source length (a reused scratch buffer),
+	// entered from several ring positions and FOLLOWED by further calls, so that a wrong state shows
+	for _, cn := range c10Ciphers {
+		key, iv, bs := c10KeyIV(c, cn)
+		for _, de := range []bool{false, true} {
+			for _, n := range []int{0, 1, 2, bs - 1, bs, bs + 1, 2*bs - 1, 2 * bs, 2*bs + 1, 3 * bs} {
+				for _, L := range []int{n, n + 1, bs, bs + 1, 2 * bs, 2*bs + 1, 2*bs + 2, 3 * bs, 4*bs + 7, 128, 1024} {
+					if L < n {
+						continue
+					}
+					m := "scratch" + strconv.Itoa(L)
+					for _, k := range []int{0, 3, bs, 2*bs + 1} {
+						if k != 0 && (n+L+k)%4 != 0 {
+							continue
+						}
+						calls := []c10Call{{"inplace", k}, {m, n}, {"inplace", bs + 3}, {m, bs}, {"disjoint", 2*bs + 5}}
+						c10Cfb8(c, cn, key, iv, de, calls, c10Bytes(c.R, k+n+bs+3+bs+2*bs+5))
 					}
 				}
 			}
@@ -761,7 +813,7 @@ func genC10(c *Ctx) {
 			if n > left {
 				n = left
 			}
-			calls = append(calls, c10Call{c10Mode(c), n})
+			calls = append(calls, c10Call{c10Mode(c, bs, n), n})
 			left -= n
 		}
 		c10Cfb8(c, cn, key, iv, i%2 == 0, calls, c10Bytes(c.R, total))
@@ -779,7 +831,7 @@ func genC10(c *Ctx) {
 			if n > left || c.R.Intn(6) == 0 {
 				n = left
 			}
-			dcalls = append(dcalls, c10Call{c10Mode(c), n})
+			dcalls = append(dcalls, c10Call{c10Mode(c, bs, n), n})
 			left -= n
 		}
 		c10RoundTrip(c, cn, key, iv, ecalls, dcalls, c10Bytes(c.R, total))
